@@ -36,6 +36,19 @@ def suite_valid(ctx):
                 s.count('dtc-group:' + c.group)
             if got != 'ok ' + c.expect:
                 s.fail({'site': c.site, 'input': line, 'generator': name, 'observed': got, 'required': 'ok ' + c.expect})
+            elif name == 'rdbi' and c.expect != 'rdbi -':
+                # the composite read_data_by_identifier_first hands back the value of the first identifier asked for
+                import copy
+                from .. import declib as _d
+                ids = [int(x) for x in c.dline.split('dids=')[1].split()[0].split(',')]
+                c1 = copy.copy(c)
+                c1.invoke = lambda cl_, ids=ids: cl_.read_data_by_identifier_first(list(ids))
+                c1.dump = lambda v, ids=ids: 'first %d=%s' % (ids[0], _d.bh(_d.raw(v)) if v is not None else 'None')
+                got1 = declib.run_reply(c1, c.good)
+                want1 = 'ok first ' + c.expect[len('rdbi '):].split(',')[0]
+                s.count('rdbi-first:' + got1.split(' ')[0])
+                if got1 != want1:
+                    s.fail({'site': 'read_data_by_identifier_first', 'input': line, 'generator': name, 'observed': got1, 'required': want1})
     core.compare(s, lines, core.drv_batch(lines), impl)
     for i in (0, len(lines) // 2, len(lines) - 1):
         s.sample({'line': lines[i], 'impl': impl[i]})
